@@ -40,6 +40,7 @@ fn new_iri(ty: &str, s: &str) -> bool {
 }
 
 fn main() {
+    panic::set_hook(Box::new(|_| {}));
     let a: Vec<String> = std::env::args().collect();
     match a[1].as_str() {
         // new <uri|iri> <Type> <hex of the UTF-8 text>
@@ -106,6 +107,25 @@ fn main() {
             let bb = hex(&a[3]);
             let b = uri::Uri::new(&bb).expect("valid base URI");
             println!("{}", r.resolved(b).as_str());
+        }
+        // pcteq <Type> <hex>: build a component and compare / hash / iterate it (C07, C19): prints ok or panic
+        "pcteq" => {
+            let b = hex(&a[3]);
+            let ty = a[2].clone();
+            let r = panic::catch_unwind(move || {
+                use std::hash::{Hash, Hasher};
+                let mut h = std::collections::hash_map::DefaultHasher::new();
+                match ty.as_str() {
+                    "Segment" => { let x = uri::Segment::new(&b).expect("valid"); let _ = x == x; x.hash(&mut h); let _ = x.as_pct_str().chars().count(); }
+                    "Query" => { let x = uri::Query::new(&b).expect("valid"); let _ = x == x; x.hash(&mut h); }
+                    "Fragment" => { let x = uri::Fragment::new(&b).expect("valid"); let _ = x == x; x.hash(&mut h); }
+                    "UserInfo" => { let x = uri::UserInfo::new(&b).expect("valid"); let _ = x == x; x.hash(&mut h); }
+                    "Host" => { let x = uri::Host::new(&b).expect("valid"); let _ = x == x; x.hash(&mut h); }
+                    "Uri" => { let x = uri::Uri::new(&b).expect("valid"); let _ = x == x; x.hash(&mut h); }
+                    _ => panic!("unknown type"),
+                }
+            });
+            println!("{}", if r.is_ok() { "ok" } else { "panic" });
         }
         _ => panic!("unknown op"),
     }
